@@ -249,6 +249,12 @@ class UnusedTranslator:
                 UniqueVariables(rules[0]), prg.index(rules[0]), list(hlit.atom.symbol.arguments), blit.atom.symbol
             )
 
+        # a copy of a copy is handled in a later round, after the inner predicate has been replaced
+        for head in list(mapping):
+            inner = mapping[head].symbol
+            if Predicate(inner.name, len(inner.arguments)) in mapping:
+                del mapping[head]
+
         used: set[int] = set()
 
         def convert(atom: AST) -> AST:
